@@ -142,7 +142,7 @@ func loadEnvInternal(env map[string]string, prefix string, prv reflect.Value) er
 			mapKeyLower := strings.ToLower(mapKey)
 			nv := prv.Elem().MapIndex(reflect.ValueOf(mapKeyLower))
 			zero := reflect.Value{}
-			if nv == zero {
+			if nv == zero || nv.IsNil() {
 				nv = reflect.New(rt.Elem().Elem())
 				prv.Elem().SetMapIndex(reflect.ValueOf(mapKeyLower), nv)
 			}
@@ -285,8 +285,11 @@ func loadWithEnv(env map[string]string, prefix string, v any) error {
 func envToMap() map[string]string {
 	env := make(map[string]string)
 	for _, kv := range os.Environ() {
-		tmp := strings.SplitN(kv, "=", 2)
-		env[tmp[0]] = tmp[1]
+		key, value, ok := strings.Cut(kv, "=")
+		if !ok {
+			continue
+		}
+		env[key] = value
 	}
 	return env
 }
